@@ -121,6 +121,11 @@ func VerifC18Structure() {
 	if nd.Bool("e_inner") {
 		b.WriteString("  x -> y: l\n")
 	}
+	if nd.Bool("group") {
+		// a nested container declared before a later sibling (in a sequence
+		// diagram: a group declared before one of its actors)
+		b.WriteString("  grp: {\n   x -> y: gi\n  }\n  late\n  y -> late\n")
+	}
 	if nd.Param("DEEP", 0) > 0 {
 		// a third level: grid inside sequence inside container and the like
 		switch nd.Choose("deep", 0, 3) {
@@ -133,8 +138,11 @@ func VerifC18Structure() {
 		}
 	}
 	b.WriteString(" }\n")
-	if nd.Bool("e_mid") {
+	switch nd.Choose("e_mid", 0, 2) {
+	case 1:
 		b.WriteString(" a1 -> c.x\n a2 -> a1\n")
+	case 2: // parallel connections crossing the inner boundary, both directions
+		b.WriteString(" a1 -> c.x: one\n a1 -> c.x: two\n c.x -> a1\n a1 <- c.x: back\n")
 	}
 	b.WriteString("}\nz\nw: {v}\n")
 	if nd.Param("NEAR2", 0) > 0 {
@@ -148,13 +156,15 @@ func VerifC18Structure() {
 			b.WriteString("N: {\n near: center-left\n shape: sequence_diagram\n n1 -> n2\n n2 -> n1\n}\n")
 		}
 	}
-	switch nd.Choose("e_out", 0, 3) {
+	switch nd.Choose("e_out", 0, 4) {
 	case 1:
 		b.WriteString("z -> A\nw.v -> z\n")
 	case 2:
 		b.WriteString("z -> A.a1\n")
 	case 3:
 		b.WriteString("w.v -> A.c.y\nA.c -> z\n")
+	case 4: // parallel connections crossing the outer boundary
+		b.WriteString("z -> A.a1: one\nz -> A.a1: two\nA.a1 -> z\nz <- A.a1: back\n")
 	}
 	text := b.String()
 	nd.Observe(text)
